@@ -29,7 +29,8 @@ EXTENDS Integers, Sequences, FiniteSets, TLC
 
 Max2(a, b) == IF a > b THEN a ELSE b
 
-NewHalf == [started |-> FALSE, next |-> 0, segs |-> {}, kept |-> 0, ended |-> FALSE, anchor |-> FALSE, pending |-> {}]
+NewHalf == [started |-> FALSE, next |-> 0, segs |-> {}, kept |-> 0, ended |-> FALSE, anchor |-> FALSE, pending |-> {},
+            maybe |-> {}, synflight |-> FALSE]
 NewConn == [news |-> 0, completes |-> 0, removed |-> FALSE, incarnation |-> 0]
 NewState == [h |-> <<>>, c |-> <<>>, cfg |-> [asm |-> "reassembly", limit |-> 0],
              flush |-> [kind |-> "none", t |-> 0], maxpkt |-> 0]
@@ -55,14 +56,20 @@ Covered(a, b, segs) ==
 RunLen(r) == IF Len(r) = 0 THEN 0 ELSE r[1][2] - r[1][1]
 
 -----------------------------------------------------------------------------
+\* A concurrent driver that cannot observe the moment a packet is processed logs it twice: phase "begin" before
+\* the Assemble call (from then on its bytes MAY be delivered) and phase "end" after the call returned (from then
+\* on they HAVE arrived: skipping them or never delivering them is a violation).  Sequential drivers log once.
 JudgeSeg(st, e) ==
   LET k == HKey(e)
       h == GetH(st, k)
       s == [lo |-> e.lo, hi |-> e.hi, ts |-> e.ts, fin |-> (e.fin \/ e.rst), syn |-> e.syn]
-  IN IF GetC(st, e.c).completes > 0
-     THEN \* after completion of the stream the segment can only belong to a later incarnation of the connection
-          <<"ok", PutH(st, k, [h EXCEPT !.pending = @ \cup {s}])>>
-     ELSE LET h1 == [h EXCEPT !.segs = @ \cup {s}]
+      phase == IF "phase" \in DOMAIN e THEN e.phase ELSE "both"
+  IN IF phase = "begin"
+     THEN <<"ok", PutH(st, k, [h EXCEPT !.maybe = @ \cup {s}, !.synflight = (@ \/ e.syn)])>>
+     ELSE IF GetC(st, e.c).completes > 0
+     THEN \* segments handed in after the stream completed are ignored (the connection is closed or gone)
+          <<"ok", PutH(st, k, [h EXCEPT !.maybe = @ \ {s}])>>
+     ELSE LET h1 == [h EXCEPT !.segs = @ \cup {s}, !.maybe = @ \ {s}]
               h2 == IF ~h.started /\ e.syn THEN [h1 EXCEPT !.started = TRUE, !.next = 0, !.kept = 0]
                     ELSE IF ~h.started /\ e.force THEN [h1 EXCEPT !.started = TRUE, !.next = e.lo, !.kept = e.lo]
                     ELSE h1
@@ -71,7 +78,9 @@ JudgeSeg(st, e) ==
 \* one delivery.  srun / nrun: maximal runs [lo,hi) of stream offsets of the saved prefix / the new data
 JudgeSG(st, e) ==
   LET k  == HKey(e)
-      h  == GetH(st, k)
+      h0 == GetH(st, k)
+      \* a SYN that is being processed concurrently may already have started the stream
+      h  == IF ~h0.started /\ h0.synflight /\ e.skip >= 0 THEN [h0 EXCEPT !.started = TRUE, !.next = 0, !.kept = 0] ELSE h0
       c  == GetC(st, e.c)
       n  == RunLen(e.nrun)
       sv == RunLen(e.srun)
@@ -98,10 +107,10 @@ JudgeSG(st, e) ==
                 (IF a < h.next THEN "duplicate-or-reordered" ELSE "wrong-skip")
         ELSE IF e.skip > 0 /\ ~(inflush \/ lim) THEN "gap-released-without-flush-or-limit"
         ELSE IF (h.started \/ h.anchor) /\ e.skip > 0 /\ \E s \in h.segs : Overlaps(s, base, base + e.skip) THEN "arrived-bytes-skipped"
-        ELSE IF ~Covered(a, b, h.segs) THEN "invented-bytes"
+        ELSE IF ~Covered(a, b, h.segs \cup h.maybe) THEN "invented-bytes"
         ELSE IF sv > 0 /\ ~(e.srun[1][1] = h.kept /\ e.srun[1][2] = h.next) THEN "wrong-saved-bytes"
         ELSE IF sv = 0 /\ h.kept < h.next /\ h.started /\ e.skip <= 0 THEN "kept-bytes-not-presented"
-        ELSE IF e.end /\ ~(\E s \in h.segs : s.fin /\ (s.hi <= b \/ (n = 0 /\ ~h.started))) THEN "end-without-fin"
+        ELSE IF e.end /\ ~(\E s \in h.segs \cup h.maybe : s.fin /\ (s.hi <= b \/ (n = 0 /\ ~h.started))) THEN "end-without-fin"
         ELSE IF st.flush.kind = "older" /\ e.skip > 0 /\ n > 0
                 /\ ~(\E s \in h.segs : s.lo <= a /\ a < s.hi /\ s.ts < st.flush.t) THEN "age-flush-released-newer-data"
         ELSE "ok"
@@ -113,9 +122,9 @@ JudgeNew(st, e) ==
       \* a new incarnation forgets both directions
       \* (segments logged before the very first "new" of a connection are kept: concurrent drivers log
       \* the segment before the call that creates the stream)
-      \* a later incarnation inherits the segments its predecessor had been handed but never delivered
+      \* a later incarnation inherits the segments that are still in flight (phase "begin" seen, "end" not yet)
       \* (a concurrent flush may close a connection between a packet's lookup and its processing)
-      Carry(h) == LET und == {x \in h.segs : ~h.started \/ x.hi > h.next \/ (x.lo = x.hi /\ x.syn /\ ~h.started)} \cup h.pending
+      Carry(h) == LET und == h.maybe   \* (what the closed predecessor had queued died with it)
                       syn == \E x \in und : x.syn
                   IN [NewHalf EXCEPT !.segs = und, !.started = syn]
       st2 == IF c.news = 0 THEN st
